@@ -274,7 +274,7 @@ func (pool *TxPool) UnMarkExecuted(block *types.Block) {
 	for _, tx := range txs {
 		pool.executed.Delete(tx.Hash.Bytes())
 		verifGate("unmark.deleted", tx.Hash)
-		pool.add(tx)
+		pool.addWith(tx, true)
 	}
 }
 
@@ -420,6 +420,12 @@ func (pool *TxPool) ProcessFee(tx types.Transaction, accountDB *account.AccountD
 }
 
 func (pool *TxPool) add(tx *types.Transaction) (bool, error) {
+	return pool.addWith(tx, false)
+}
+
+// addWith: force stores the transaction even when the pool is at its size limit (the
+// transactions of a block removed by a reorg must become pending again)
+func (pool *TxPool) addWith(tx *types.Transaction, force bool) (bool, error) {
 	if tx == nil {
 		return false, ErrNil
 	}
@@ -429,7 +435,11 @@ func (pool *TxPool) add(tx *types.Transaction) (bool, error) {
 		return false, ErrExist
 	}
 	verifGate("add.checked", hash)
-	pool.received.push(tx)
+	if force {
+		pool.received.pushAnyway(tx)
+	} else {
+		pool.received.push(tx)
+	}
 	txPoolLogger.Debugf("[pool]Add tx:%s. global nonce: %d,source:%s,nonce:%d, After add,received size:%d", tx.Hash.String(), tx.RequestId, tx.Source, tx.Nonce, pool.received.Len())
 	return true, nil
 }
